@@ -7,6 +7,11 @@ response headers the real response has and the twin's has not (with multipliciti
 the twin's response is missing from the real one, and whether anything behind the filter ran.
 The driver evaluates `c08Holds` / `c09Holds` on every real observation; `Props/C08.lean` and
 `Props/C09.lean` prove them of the model's own outcome for all inputs.
+
+Both predicates demand the grant in BOTH directions: no CORS header unless due, and every header
+that is due — present, once, with the right value (see the docstrings of `c08Holds` / `c09Holds`,
+which go through the property texts clause by clause; `CorsObs` says where each observed field
+comes from).
 -/
 import Restful.Model.Cors
 namespace Restful
@@ -110,7 +115,26 @@ def actualHeaders (cc : CorsCfg) (rq : CorsReq) : List (Str × Str) :=
   (if cc.cookies then [(hAllowCredentials, sTrue)] else []) ++
   (if cc.maxAge > 0 then [(hMaxAge, itoa cc.maxAge)] else [])
 
-/-- what was observed for one request (real container vs. twin without the CORS filter) -/
+/-- What was observed for one request: the same request sent to the real container (with the CORS
+    filter) and to its twin (identical, without that filter), the two recorders compared in full
+    (harness/internal/cors/real.go `Observe`).
+
+    Where each field comes from — nothing here is filled in by the model of the filter alone:
+    * `extra`, `later` — what the FILTER did, as far as a client and the event log can see it: the
+      header lines the real response has and the twin's has not (multiset difference), and whether
+      anything behind the filter ran.  They coincide with the model's `Out.added` / `Out.passOn`
+      only if the code behind the filter does not itself set, overwrite or remove those headers and
+      logs when it runs (`Cors.RestOK`, Lemmas/Cors.lean) — the harness's generated filters and
+      route functions are built that way.
+    * `reached` — whether the filter was called at all (a logging filter installed BEFORE it logged);
+      with `Container.ServeHTTP` the ServeMux may answer first.  Only the harness can tell.
+    * `missing`, `status`, `twinStatus`, `bodySame`, `logSame` — the TWIN COMPARISON.  The model of the
+      filter has no status, body or log: it says which headers the filter adds and whether it passes
+      control on, nothing about what the rest of the container then does.  "Exactly as if the filter
+      were absent" is derived for an ARBITRARY rest of the container where it can be
+      (`Cors.withFilter_absent`: no Origin / disallowed origin ⇒ the exchange IS the twin's); for an
+      allowed origin it is a hypothesis about the code behind the filter, and the harness measures
+      it on every request. -/
 structure CorsObs where
   reached : Bool              -- the container's filter chain ran at all (a filter BEFORE the CORS filter logged)
   extra : List (Str × Str)    -- response headers (canonical name, value) on the real response and not on the twin's, with multiplicity
@@ -120,7 +144,7 @@ structure CorsObs where
   bodySame : Bool
   logSame : Bool              -- the filters/handlers behind the CORS filter logged the same events as on the twin
   later : Bool                -- some filter behind the CORS filter, or a route function, ran
-  deriving Repr
+  deriving DecidableEq, Repr
 
 def valuesOf (name : Str) (hs : List (Str × Str)) : List Str := (hs.filter (fun h => h.1 == name)).map (·.2)
 
@@ -130,21 +154,61 @@ def restSame (o : CorsObs) : Bool := o.missing == 0 && o.status == o.twinStatus 
 /-- processed exactly as if the filter were absent -/
 def sameAsTwin (o : CorsObs) : Bool := o.extra.isEmpty && restSame o
 
-/-- C08 on one observed request -/
-def c08Holds (cc : CorsCfg) (rq : CorsReq) (o : CorsObs) : Bool :=
-  let allowed := originAllowed lower cc rq.origin
-  -- any CORS grant only for an allowed origin
-  (o.extra.isEmpty || allowed) &&
-  -- when granted: Allow-Origin is the request's Origin verbatim, once
-  (o.extra.isEmpty || valuesOf hAllowOrigin o.extra == [rq.origin]) &&
-  -- credentials only if configured
-  ((valuesOf hAllowCredentials o.extra).isEmpty || cc.cookies) &&
-  -- nothing twice
-  decide ((o.extra.map (·.1)).Nodup) &&
-  -- no Origin / disallowed origin / chain not reached: exactly as if the filter were absent
-  ((o.reached && allowed) || sameAsTwin o)
+/-- C08 on one observed request.  Clause by clause (properties.jsonl C08):
 
-/-- C09 on one observed request -/
+    * "A response carries … any CORS grant ONLY IF the request's Origin is allowed" and "Requests
+      without an Origin, or from a disallowed origin, are processed exactly as if the filter were
+      absent": first branch — no header beyond the twin's, and the rest is the twin's (also when the
+      filter chain was not reached at all).
+    * "WHEN GRANTED, Allow-Origin is the request's Origin verbatim and appears once, and credentials
+      are granted only if configured": second branch, for a preflight (WHETHER a preflight from an
+      allowed origin is granted is C09's clause, `c09Holds` demands it in both directions) — if
+      anything is granted, exactly one Allow-Origin, equal to the Origin byte for byte; Allow-Credentials
+      only if configured; no header name twice.
+    * an ACTUAL request from an allowed origin IS granted (C09's last sentence: "proceeds down the
+      chain with the actual-request headers (origin, credentials, exposed headers, max-age) added
+      once"): third branch — the headers beyond the twin's are, up to order, exactly
+      `actualHeaders`: Allow-Origin PRESENT, once, verbatim; Allow-Credentials `true` exactly when
+      configured; Expose-Headers exactly when the list is not empty (joined with `,`); Max-Age
+      exactly when positive; nothing else and nothing twice.  (The previous version of this
+      predicate accepted an allowed origin's actual request WITHOUT any header.) -/
+def c08Holds (cc : CorsCfg) (rq : CorsReq) (o : CorsObs) : Bool :=
+  if !(o.reached && originAllowed lower cc rq.origin) then
+    -- no Origin / disallowed origin / chain not reached: no grant, exactly as if the filter were absent
+    sameAsTwin o
+  else if isPreflight rq then
+    -- when granted: Allow-Origin is the request's Origin verbatim, once;
+    -- credentials only if configured; nothing twice
+    o.extra.isEmpty ||
+      (valuesOf hAllowOrigin o.extra == [rq.origin] &&
+       ((valuesOf hAllowCredentials o.extra).isEmpty || cc.cookies) &&
+       decide ((o.extra.map (·.1)).Nodup))
+  else
+    -- an actual request from an allowed origin: the grant is due, exactly as configured, each once
+    o.extra.isPerm (actualHeaders cc rq)
+
+/-- C09 on one observed request.  Clause by clause (properties.jsonl C09):
+
+    * a preflight from an allowed origin "is answered by the CORS filter without running any later
+      filter or route function": `!o.later`;
+    * "It receives Allow-Methods, Allow-Headers and Allow-Origin only if the requested method is among
+      the allowed methods … and every requested header is among the allowed headers …; otherwise it
+      receives no CORS grant at all" — and the grant direction (`C09_grant` is an iff): when
+      `preflightOK`, each of the three headers MUST be there, exactly once, with the right value (the
+      allowed methods joined with `,`; the requested header list verbatim; the Origin verbatim);
+      whatever else is granted with them is one of the actual-request headers as configured, no name
+      twice ("grants only what is allowed").  Otherwise: no header beyond the twin's.
+      (The previous version of this predicate used `.all` on the three value lists and so accepted
+      a preflight that should be granted but received nothing.)
+      `preflightOK` is the code's exact condition: an empty ELEMENT of the requested list counts as
+      a requested header named "" (see `requestedHeaders`); the property's "only if" permits the
+      refusal, the grant direction is stated for this condition.
+    * "Any other request from an allowed origin proceeds down the chain with the actual-request
+      headers … added once": the chain ran, the rest is the twin's, and the headers beyond the
+      twin's are exactly `actualHeaders` up to order.
+
+    Requests without Origin, from a disallowed origin, or that never reached the filter chain are
+    C08's business (`c08Holds` demands the twin's response there). -/
 def c09Holds (cc : CorsCfg) (tbl : Config) (rq : CorsReq) (o : CorsObs) : Bool :=
   if !o.reached || !originAllowed lower cc rq.origin then true      -- C08's business
   else if isPreflight rq then
@@ -152,10 +216,13 @@ def c09Holds (cc : CorsCfg) (tbl : Config) (rq : CorsReq) (o : CorsObs) : Bool :
     -- answered by the filter alone
     !o.later &&
     (if preflightOK lower cc ms rq then
-       -- what is granted is what is allowed
-       (valuesOf hAllowMethods o.extra).all (· == join sComma ms) &&
-       (valuesOf hAllowHeaders o.extra).all (· == rq.acrh) &&
-       (valuesOf hAllowOrigin o.extra).all (· == rq.origin)
+       -- the grant is due: each of the three headers exactly once, with the right value
+       valuesOf hAllowMethods o.extra == [join sComma ms] &&
+       valuesOf hAllowHeaders o.extra == [rq.acrh] &&
+       valuesOf hAllowOrigin o.extra == [rq.origin] &&
+       -- and only what is allowed: anything else is an actual-request header as configured, once
+       o.extra.all (fun h => h.1 == hAllowMethods || h.1 == hAllowHeaders || (actualHeaders cc rq).contains h) &&
+       decide ((o.extra.map (·.1)).Nodup)
      else
        -- otherwise no CORS grant at all
        o.extra.isEmpty)
